@@ -103,6 +103,8 @@ pub struct Profile {
     pub big_advances: bool,
     /// weight of E2 interposition ops (schedule mode only)
     pub interpose: u32,
+    /// restrict interposition to the clear() sites
+    pub interpose_clear_only: bool,
 }
 
 impl Default for Profile {
@@ -128,6 +130,7 @@ impl Default for Profile {
             negative_max: false,
             big_advances: true,
             interpose: 0,
+            interpose_clear_only: false,
         }
     }
 }
@@ -372,13 +375,19 @@ pub fn op_strategy(p: &Profile, cfg: &Config) -> BoxedStrategy<Op> {
             1 => (0usize..3).prop_map(|pre| Op::Clear { pre }),
         ];
         let actions = proptest::collection::vec(nested, 1..=3);
-        let site = prop_oneof![
+        let other_w = if p.interpose_clear_only { 0u32 } else { 1 };
+        let _ = other_w;
+        let site = if p.interpose_clear_only {
+            (proptest::sample::select(vec!["clear.after_signal", "proc.clear.after_drain", "proc.clear.after_policy_clear", "proc.clear.after_store_clear", "em.clear.before", "em.clear.after"]), (0usize..3).prop_map(|pre| Op::Clear { pre })).boxed()
+        } else {
+            prop_oneof![
             6 => (proptest::sample::select(vec!["proc.new.after_policy_add", "proc.new.after_store_insert", "proc.new.victim", "proc.update", "proc.delete.after_policy_remove"]), Just(Op::ProcInsert)),
             2 => (Just("remove.after_store_remove"), (0..nk).prop_map(|k| Op::Remove { k })),
             2 => (Just("insert.after_store_update"), (0..nk, cost_strategy(cfg.max_cost, internal), ttl_strategy(p.ttl_pct), tag_strategy(cfg.max_cost, internal)).prop_map(|(k, cost, ttl, tag)| Op::Insert { k, cost, ttl, tag })),
             2 => (proptest::sample::select(vec!["cleanup.after_check", "cleanup.after_policy_remove"]), Just(Op::Tick)),
-            2 => (proptest::sample::select(vec!["clear.after_signal", "proc.clear.after_drain", "proc.clear.after_policy_clear", "proc.clear.after_store_clear"]), (0usize..3).prop_map(|pre| Op::Clear { pre })),
-        ];
+            2 => (proptest::sample::select(vec!["clear.after_signal", "proc.clear.after_drain", "proc.clear.after_policy_clear", "proc.clear.after_store_clear", "em.clear.before", "em.clear.after"]), (0usize..3).prop_map(|pre| Op::Clear { pre })),
+        ].boxed()
+        };
         arms.push((
             p.interpose,
             (site, 0usize..2, actions).prop_map(|((at, then), nth, actions)| Op::Interpose { at: at.to_string(), nth, actions, then: Box::new(then) }).boxed(),
@@ -394,6 +403,56 @@ pub fn case_strategy(p: &Profile) -> BoxedStrategy<Case> {
         .prop_flat_map(move |cfg| {
             let ops = proptest::collection::vec(op_strategy(&p2, &cfg), p2.len.0..=p2.len.1);
             (Just(cfg), ops).prop_map(|(cfg, ops)| Case { cfg, ops })
+        })
+        .boxed()
+}
+
+/// Template cases for "clear() racing a client operation on a TTL key, then the key is re-used":
+/// random prefix; a TTL key made resident; clear() with a client action interposed at one of the
+/// yield points inside it; the key re-used with another TTL or none; time advanced over the old
+/// deadline; a cleanup tick; random suffix.
+pub fn clear_reuse_scenario(p: &Profile) -> BoxedStrategy<Case> {
+    let mut p2 = p.clone();
+    p2.modes = vec![Mode::Schedule];
+    let p3 = p2.clone();
+    config_strategy(&p2)
+        .prop_flat_map(move |cfg| {
+            let nk = cfg.keys.len() as u64;
+            let ops = op_strategy(&p3, &cfg);
+            let site = proptest::sample::select(vec!["clear.after_signal", "proc.clear.after_drain", "proc.clear.after_policy_clear", "proc.clear.after_store_clear", "em.clear.before", "em.clear.after"]);
+            let ttl_some = proptest::sample::select(vec![1_000_000i64, 500_000_000, NS - 1, NS, 1_500_000_000, 2 * NS, 5 * NS]);
+            let ttl_any = prop_oneof![Just(0i64), proptest::sample::select(vec![1_000_000i64, NS, 3 * NS])];
+            (
+                Just(cfg),
+                proptest::collection::vec(ops.clone(), 0..10),
+                0..nk,
+                ttl_some.clone(),
+                site,
+                prop_oneof![
+                    3 => ttl_some.prop_map(|t| (0u8, t)),
+                    1 => Just((0u8, 0i64)),
+                    1 => Just((1u8, 0i64)),
+                ],
+                ttl_any,
+                proptest::sample::select(vec![NS, 2 * NS, 3 * NS, 6 * NS]),
+                proptest::collection::vec(ops, 0..8),
+                0usize..2,
+            )
+                .prop_map(move |(cfg, prefix, k, ttl1, site, (akind, attl), ttl2, adv, suffix, pre)| {
+                    let mut v = prefix;
+                    v.push(Op::Insert { k, cost: 1, ttl: ttl1, tag: 1 });
+                    v.push(Op::Drain { clear_first: false });
+                    let action = if akind == 0 { Op::Insert { k, cost: 1, ttl: attl, tag: 2 } } else { Op::Remove { k } };
+                    v.push(Op::Interpose { at: site.to_string(), nth: 0, actions: vec![action], then: Box::new(Op::Clear { pre }) });
+                    v.push(Op::Drain { clear_first: false });
+                    v.push(Op::Insert { k, cost: 1, ttl: ttl2, tag: 3 });
+                    v.push(Op::Drain { clear_first: false });
+                    v.push(Op::Advance(Adv::Ns(adv)));
+                    v.push(Op::Tick);
+                    v.push(Op::Get { k });
+                    v.extend(suffix);
+                    Case { cfg, ops: v }
+                })
         })
         .boxed()
 }
